@@ -30,8 +30,9 @@
    which literal runs alternate with `$` counters, `$#` and `${n}` / `${n:placeholder}` fields at ANY depth of
    inner braces (the fact behind repair 86fc68a, `p{{$}}`), with C04_tokenize_nested, C04_nested_closing_brace,
    C04_parse_nested, C04_nested_value_text, C04_nested_value_flat, C04_nested_scanner, C04_nested_repeated_partial (copy i
-   of `name{P}*N`, P without `$#`); C04_nested_extends_text_literal shows C04_text_literal is its one-run case.
-   Not covered by a theorem: `$` numbering / fields inside attribute values, text written
+   of `name{P}*N`, P without `$#`); C04_nested_extends_text_literal shows C04_text_literal is its one-run case; C04_attr_expr_nested /
+   C04_tokenize_attr_nested: the same payloads as an `{expression}` attribute value `name[n={P}]` (proofs/AttrNested.v).
+   Not covered by a theorem: `$` numbering / fields inside quoted / unquoted attribute values, text written
    between the attribute parts (`a{t}.c`), text under the haml / pug / slim formatters -- these are
    covered by the model/implementation correspondence and the oracle. *)
 From Coq Require Import String.
@@ -405,7 +406,7 @@ Proof. eexists. split; [vm_compute; reflexivity|]. cbn. repeat split; repeat con
    [nested_value reps P]: the node value -- runs unescaped, counters replaced by the counter in force under the
    repeater stack [reps] zero-padded (C02_numbering_value), `$#` by nothing (no wrap text), neighbouring strings
    glued into one string, fields kept as fields. *)
-From Emmet Require Import proofs.NumberingProofs proofs.ConvertProofs proofs.TextNested.
+From Emmet Require Import proofs.NumberingProofs proofs.ConvertProofs proofs.TextNested proofs.AttrNested.
 
 (* text_nested.  For EVERY such payload and every element name, the front end (tokenize, parse, convert) turns
    `name{P}` into the single node `name` whose value is the payload: literal runs verbatim with escapes resolved
@@ -498,6 +499,30 @@ Theorem C04_nested_repeated_partial :
 Proof. exact text_nested_repeated. Qed.
 Print Assumptions C04_nested_repeated_partial.
 
+(* attr_expr_nested.  The same payloads as an `{expression}` ATTRIBUTE value, end to end (tokenize, parse, convert) on
+   `name[n={P}]`: ONE node with the one attribute n whose value is the payload -- runs with escapes resolved and inner
+   braces kept, counters replaced, fields kept as fields ([attr_nested_value reps P] = the strings and fields of
+   [nested_value], an empty payload giving the empty value list) -- of type expression.  Extends the `n={e}` row of
+   C04_attr_value_literal from payloads without `$` to payloads with numbering at any brace depth.
+   (One attribute, written name; other value forms / several attributes with such values: correspondence + oracle.) *)
+Theorem C04_attr_expr_nested :
+  forall (jsx : bool) (env : cenv) (max_repeat : option N) (name n : str) (P : payload),
+    word_ok name -> plain_attr_name n -> payload_ok P = true -> ce_text env = WNone ->
+    parse_abbr jsx env max_repeat (name ++ c_lbrack :: n ++ c_eq :: c_lbrace :: payload_text P ++ [c_rbrace; c_rbrack]) =
+      Ok [ANode (Some name) None None
+                (Some [mkAAttr (Some n) (Some (attr_nested_value [] P)) VExpr false false false]) [] false].
+Proof. exact attr_expr_nested. Qed.
+Print Assumptions C04_attr_expr_nested.
+
+(* its tokens: name, `[`, n, `=`, `{`, the payload's tokens, `}`, `]` *)
+Theorem C04_tokenize_attr_nested :
+  forall (name n : str) (P : payload),
+    word_ok name -> n <> [] -> forallb asafe n = true -> payload_ok P = true ->
+    tokenize (name ++ c_lbrack :: n ++ c_eq :: c_lbrace :: payload_text P ++ [c_rbrace; c_rbrack]) =
+      TOk (attr_nested_tokens name n P).
+Proof. exact tokenize_attr_nested. Qed.
+Print Assumptions C04_tokenize_attr_nested.
+
 (* non-vacuity: `p{a{$}b{{$$@-}c}${1:x{y}}}` -- counters one and two braces deep, a field whose placeholder holds
    braces; the hypotheses hold and the conclusion computes, alone and as `...*2` *)
 Definition nested_example : payload :=
@@ -513,6 +538,21 @@ Example C04_nested_nonvacuous :
 Proof.
   split; [split; [discriminate|repeat constructor]|].
   split; [vm_compute; reflexivity|]. split; [vm_compute; reflexivity|].
+  split; [vm_compute; reflexivity|]. split; vm_compute; reflexivity.
+Qed.
+
+(* non-vacuity of attr_expr_nested: `p[t={x{$}y{{${2:q{r}}}}}]` *)
+Example C04_attr_nested_nonvacuous :
+  let P : payload := (S "x{", [(INum 1 false false [], S "}y{{"); (IField (S "2") (Some (S "q{r}")), S "}}")]) in
+  word_ok (S "p") /\ plain_attr_name (S "t") /\ payload_ok P = true /\
+  S "p[t={" ++ payload_text P ++ S "}]" = S "p[t={x{$}y{{${2:q{r}}}}}]" /\
+  parse_abbr false (mkCenv WNone [] false) None (S "p[t={x{$}y{{${2:q{r}}}}}]") =
+    Ok [ANode (Some (S "p")) None None
+              (Some [mkAAttr (Some (S "t")) (Some [VStr (S "x{1}y{{"); VField 2 (S "q{r}"); VStr (S "}}")]) VExpr false false false])
+              [] false].
+Proof.
+  cbv zeta. split; [split; [discriminate|repeat constructor]|].
+  split; [split; [discriminate|repeat split; reflexivity]|].
   split; [vm_compute; reflexivity|]. split; vm_compute; reflexivity.
 Qed.
 
